@@ -225,3 +225,51 @@ func verifHarness_C20_Locks41() {
 		rt.Assert(lockOwners == 1, "one protocol-level lock-owner is one lock-owner record")
 	}
 }
+
+// One NFSv4.0 lock-owner with locks on two files: when either file is closed
+// (in either order) the owner stays the same owner for the other file -- its
+// own locks there never conflict with its own requests, and still exclude
+// other owners, who are told who holds them.
+func verifHarness_C20_OneOwnerTwoFiles40() {
+	rt.MustCover("two:closed-first", "two:closed-second")
+	r := verifNewRig40("f", "g")
+	c, stateF, last := verifPrefix40(r)
+	fhF, fhG := r.dir.leaves["f"].handle(), r.dir.leaves["g"].handle()
+	seq := verifNext(last)
+	og, isOK := r.open(c, "o1", seq, "g", virtual.ShareMaskRead|virtual.ShareMaskWrite).(*nfsv4.Open4res_NFS4_OK)
+	rt.Assert(isOK, "the confirmed open-owner opens a second file")
+	stateG := og.Resok4.Stateid
+	seq = verifNext(seq)
+	r1 := verifNondetRange("r1")
+	rt.Assume(r1.offset < r1.end()) // (offset 2^64-1 "to end of file" covers no byte)
+	lock := func(fh []byte, open nfsv4.Stateid4, lockSeq nfsv4.Seqid4) nfsv4.Stateid4 {
+		res := r.compound(verifPutFH(fh), &nfsv4.NfsArgop4_OP_LOCK{Oplock: nfsv4.Lock4args{Locktype: nfsv4.WRITE_LT, Offset: r1.offset, Length: r1.length,
+			Locker: &nfsv4.Locker4_TRUE{OpenOwner: nfsv4.OpenToLockOwner4{OpenSeqid: seq, OpenStateid: open, LockSeqid: lockSeq,
+				LockOwner: nfsv4.LockOwner4{Clientid: c, Owner: []byte("l1")}}}}})
+		lk, isOK := r.last(res).(*nfsv4.NfsResop4_OP_LOCK).Oplock.(*nfsv4.Lock4res_NFS4_OK)
+		rt.Assert(isOK, "the lock-owner's lock on an unlocked file is granted")
+		seq = verifNext(seq)
+		return lk.Resok4.LockStateid
+	}
+	lock(fhF, stateF, 7)
+	lock(fhG, stateG, 8)
+	// close one of the two files
+	keepFH := fhF
+	if rt.NondetBool("the file locked last is closed (else the one locked first)") {
+		rt.Assert(r.close(fhG, stateG, seq).GetStatus() == nfsv4.NFS4_OK, "CLOSE with locks held succeeds")
+		rt.Cover("two:closed-second")
+	} else {
+		rt.Assert(r.close(fhF, stateF, seq).GetStatus() == nfsv4.NFS4_OK, "CLOSE with locks held succeeds")
+		keepFH = fhG
+		rt.Cover("two:closed-first")
+	}
+	lockt := func(owner string) nfsv4.Lockt4res {
+		res := r.compound(verifPutFH(keepFH), &nfsv4.NfsArgop4_OP_LOCKT{Oplockt: nfsv4.Lockt4args{Locktype: nfsv4.WRITE_LT, Offset: r1.offset, Length: r1.length,
+			Owner: nfsv4.LockOwner4{Clientid: c, Owner: []byte(owner)}}})
+		return r.last(res).(*nfsv4.NfsResop4_OP_LOCKT).Oplockt
+	}
+	rt.Assert(lockt("l1").GetStatus() == nfsv4.NFS4_OK, "an owner's own locks never conflict with its lock test, whatever happened to its other files")
+	d, denied := lockt("l2").(*nfsv4.Lockt4res_NFS4ERR_DENIED)
+	rt.Assert(denied, "the owner's lock on the file that stays open still excludes other owners")
+	rt.Assert(string(d.Denied.Owner.Owner) == "l1", "the reported conflict names the holder")
+}
